@@ -10,12 +10,19 @@ rm -rf $SNAP; git -C /repo worktree remove --force $REPO 2>/dev/null
 git -C /repo worktree add -q --detach $REPO HEAD || exit 2
 cleanup() { git -C /repo worktree remove --force $REPO; rm -rf $SNAP; }
 trap cleanup EXIT
+# development only: carry uncommitted /repo files (space separated, relative) into the scratch worktree first
+for f in ${ISO_REPO_FILES:-}; do cp /repo/$f $REPO/$f; done
 ( cd $REPO && (git apply "$PATCH" 2>/dev/null || git apply --3way "$PATCH") ) || { echo "ISO: patch does not apply"; exit 2; }
-mkdir -p $SNAP && git -C /verif archive HEAD | tar -x -C $SNAP   # committed state only: edits in progress cannot break a running batch
+if [ -n "${ISO_WORKTREE:-}" ]; then
+  # development: the working tree as it is now (copied, so later edits cannot break this run)
+  mkdir -p $SNAP && rsync -a --exclude .git --exclude .cache --exclude .work --exclude bin --exclude replays --exclude seeded /verif/ $SNAP/
+else
+  mkdir -p $SNAP && git -C /verif archive HEAD | tar -x -C $SNAP   # committed state only: edits in progress cannot break a running batch
+fi
 sed -i "s|=> /repo|=> $REPO|" $SNAP/go.mod
 ( cd $SNAP && go build -o bin/vcheck ./cmd/vcheck ) || exit 2
 for P in "$@"; do
-  ( cd $SNAP && VERIF_DIR=$SNAP VERIF_REPO=$REPO VERIF_GOCACHE=/verif/.cache/go-build ./bin/vcheck $P --tier quick > $SNAP/out.log 2>&1 ); RC=$?
+  ( cd $SNAP && VERIF_DIR=$SNAP VERIF_REPO=$REPO VERIF_GOCACHE=/verif/.cache/go-build ./bin/vcheck $P --tier quick ${ISO_ARGS:-} > $SNAP/out.log 2>&1 ); RC=$?
   echo "ISO $NAME $P exit=$RC $(grep -c '^VIOLATION' $SNAP/out.log) violation lines"
   grep -A1 '^VIOLATION' $SNAP/out.log | head -4 | cut -c1-260
   [ $RC -eq 2 ] && tail -8 $SNAP/out.log
